@@ -8,6 +8,7 @@
 -/
 import FalconModel.DriverLoop
 import FalconModel.Isa.X86
+import FalconModel.Isa.X86Lift
 open Falcon
 
 def fields (s : String) : List String := (s.splitOn " | ").map (fun x => x.trimAscii.toString)
@@ -28,17 +29,30 @@ def handle (line : String) : String :=
         let addr := (Sx.parseNat addr).getD 0
         let watch := watchOf fpost
         let windows := ms.mem.map fun (a, bs) => (a, bs.length)
+        let ins? := X86.parseIns mode addr desc
         let model :=
           match Sx.parseAll btr with
           | some [x] =>
             match Fil.btr? x with
-            | some r => postLine (runBTR r ms.toState 20000) watch windows
+            | some r =>
+              -- option (A): for the mirrored class the dumped IL must BE the mirror's output
+              let mirrorOk : Bool :=
+                match ins? with
+                | some i =>
+                  match X86Lift.inClassRR i with
+                  | some (d, s) =>
+                    match X86Lift.liftRR mode i.mnem addr i.len d s with
+                    | .ok m => decide (m.instrs = r.instrs) && decide (m.succs = r.succs) && m.addr == r.addr && m.length == r.length
+                    | _ => false
+                  | none => true
+                | none => true
+              if mirrorOk then postLine (runBTR r ms.toState 20000) watch windows else "next=mirror-differs"
             | none => "-"
           | _ => "-"
         let watchS := if watch.isEmpty then
             (if mode = .amd64 then X86.gprNames else X86.regNames32) ++ ["CF", "ZF", "SF", "OF", "DF"] else watch
         let spec :=
-          match X86.parseIns mode addr desc with
+          match ins? with
           | some i => X86.postLine mode (X86.step i (X86.ofMach mode ms)) watchS windows
           | none => "-"
         model ++ "\t" ++ spec
